@@ -7,6 +7,7 @@ from ..astutil import (src, flat_guards, guards, calls_in, call_name, kwarg, con
                        iter_own_nodes, ancestors, is_within, always_leaves, flatten_guard)
 from ..cfg import cfg_of, Prov, resolve_local
 from .. import variants as V
+from .. import kernel
 
 PROPERTY = "C10"
 TITLE = "Type unification returns a unifier or nothing"
@@ -300,6 +301,11 @@ def r5_nested_strict(repo):
     return obs
 
 
+def r6_equality(repo):
+    """a variable 'is given two different types' exactly when the two are not equal: the unifier's conflict test is `==`"""
+    return kernel.equality_is_structural(repo, "C10-R6")
+
+
 def rules():
     return [
         RuleSpec("C10-R1", "single writer: bindings only through _update_type_var_map, conflicts give {}", 6, r1_single_writer),
@@ -308,6 +314,7 @@ def rules():
         RuleSpec("C10-R3", "structural mismatches give the empty map", 5, r3_mismatch),
         RuleSpec("C10-R4", "projections unwrapped only after variance/bound tests", 1, r4_projections),
         RuleSpec("C10-R5", "nested unification is strict; supertype matching only at top level", 3, r5_nested_strict),
+        RuleSpec("C10-R6", "equality of types is structural (conflicts between two bindings are decided by ==)", 6, r6_equality),
     ]
 
 
